@@ -110,6 +110,8 @@ def runK : List String → Option String
       if kind = "R" then pure (renderMat (realSynth b nlat x))
       else if kind = "F" then pure (renderMat (fastSynth b nlat x))
       else if kind = "FS" then pure (renderMat (fastSynthStacked b nlat x))
+      else if kind = "FR" then pure (renderMat (fastSynthOpt ⟨false, true, "highest"⟩ b nlat x))
+      else if kind = "FSR" then pure (renderMat (fastSynthOpt ⟨true, true, "float32"⟩ b nlat x))
       else none
   | ["ana", kind, nl, f, p, w, z] => do
       let nl ← nl.toNat?
@@ -120,6 +122,8 @@ def runK : List String → Option String
       if kind = "R" then pure (renderMat (realAnalysis b nrows nlat nl z))
       else if kind = "F" then pure (renderMat (fastAnalysis b nrows nlat nl z))
       else if kind = "FS" then pure (renderMat (fastAnalysisStacked b nrows nlat nl z))
+      else if kind = "FR" then pure (renderMat (fastAnalysisOpt ⟨false, true, "highest"⟩ b nrows nlat nl z))
+      else if kind = "FSR" then pure (renderMat (fastAnalysisOpt ⟨true, true, "float32"⟩ b nrows nlat nl z))
       else none
   -- longitude derivative
   | ["ddlon", kind, x] => do
